@@ -183,6 +183,26 @@ def generate(tier="quick"):
     r = repo()
     t = render_targets(r)
     obs = parallel(_dispatch, [("$copy", None, [])] + t)
+    # ctx/stateless: a render function that writes to the object it renders can carry what it saw of one context
+    # (dialect, quote characters) into the next call - the purity obligations of C02 for every get_sql
+    from . import c02, c05
+    for ob in parallel(c02.check_one, [x for x in c02.targets(r) if x[0].endswith(".get_sql")]):
+        if isinstance(ob, tuple):
+            obs.append(ob)
+        elif ob.kind == "pure/write":
+            ob.prop, ob.kind = PROP, "ctx/stateless"
+            ob.key = ob.key.replace("|pure/write", "|ctx/stateless")
+            obs.append(ob)
+    # ctx/escape: the escaping convention of string / JSON literals follows the dialect of the context (the
+    # lit/computes obligations of C05 under the MySQL dialect and lit/position)
+    for ob in c05.generate(tier)[0]:
+        if isinstance(ob, tuple):
+            obs.append(ob)
+        elif ob.kind in ("lit/computes", "lit/position") and (ob.kind == "lit/position" or "mysql" in ob.key):
+            ob.prop = PROP
+            ob.key = ob.key.replace("|lit/", "|ctx/escape/")
+            ob.kind = "ctx/escape"
+            obs.append(ob)
     return obs, {"functions": sorted({x[0] for x in t}) + ["pypika_tortoise.context.SqlContext.copy"],
                  "closed_world": sorted({c for x in t for c in x[2]}),
                  "assumptions": ["a context component counts as unchanged only if it is syntactically the incoming "
